@@ -3,81 +3,81 @@ CASES = {}
 REGRESSION = []
 
 
-def al_plain_alias_append(p):
-    x = p
+def al_plain_alias_append(xs):
+    x = xs
     x.append(1)
 CASES['al_plain_alias_append'] = [('L',)]
 
 
-def al_rebind_then_append(p):
-    p = list(p)
-    p.append(1)
-    return p
+def al_rebind_then_append(xs):
+    xs = list(xs)
+    xs.append(1)
+    return xs
 CASES['al_rebind_then_append'] = [('L',)]
 
 
-def al_copy_method(p):
-    x = p.copy()
+def al_copy_method(xs):
+    x = xs.copy()
     x.append(1)
     return x
 CASES['al_copy_method'] = [('L',), ('DL',)]
 
 
-def al_branch_alias(p, q):
-    if len(p) > 5:
-        x = p
+def al_branch_alias(xs, q):
+    if len(xs) > 5:
+        x = xs
     else:
         x = q
     x.append(0)
 CASES['al_branch_alias'] = [('L', 'L'), ('L7', 'L')]
 
 
-def al_swap(p, q):
-    p, q = q, p
-    p.append(1)
+def al_swap(xs, q):
+    xs, q = q, xs
+    xs.append(1)
 CASES['al_swap'] = [('L', 'L')]
 
 
-def al_nested_elem(p):
-    x = p[0]
+def al_nested_elem(xs):
+    x = xs[0]
     x.append(5)
 CASES['al_nested_elem'] = [('LL',)]
 
 
-def al_tuple_pack(p, q):
-    t = (p, q)
+def al_tuple_pack(xs, q):
+    t = (xs, q)
     t[1].append(1)
 CASES['al_tuple_pack'] = [('L', 'L')]
 
 
-def al_tuple_unpack(t):
-    a, b = t
+def al_tuple_unpack(tp):
+    a, b = tp
     b.append(1)
 CASES['al_tuple_unpack'] = [('T',)]
 
 
-def al_dict_store_load(p):
+def al_dict_store_load(xs):
     d = {}
-    d['k'] = p
+    d['k'] = xs
     d['k'].append(1)
 CASES['al_dict_store_load'] = [('L',)]
 
 
-def al_list_of_param(p):
-    l = [p]
+def al_list_of_param(xs):
+    l = [xs]
     l[0].append(2)
 CASES['al_list_of_param'] = [('L',)]
 
 
-def al_loop_alias(p):
-    for x in p:
+def al_loop_alias(xs):
+    for x in xs:
         x.append(1)
 CASES['al_loop_alias'] = [('LL',)]
 
 
-def al_loop_copy(p):
+def al_loop_copy(xs):
     out = []
-    for x in p:
+    for x in xs:
         y = list(x)
         y.append(1)
         out.append(y)
@@ -85,10 +85,10 @@ def al_loop_copy(p):
 CASES['al_loop_copy'] = [('LL',)]
 
 
-def al_early_return(p):
-    if len(p) > 100:
-        return p
-    q = list(p)
+def al_early_return(xs):
+    if len(xs) > 100:
+        return xs
+    q = list(xs)
     q.append(1)
     return q
 CASES['al_early_return'] = [('L',)]
@@ -98,8 +98,8 @@ def _al_id(x):
     return x
 
 
-def al_helper_identity(p):
-    y = _al_id(p)
+def al_helper_identity(xs):
+    y = _al_id(xs)
     y.append(1)
 CASES['al_helper_identity'] = [('L',)]
 
@@ -108,13 +108,13 @@ def _al_push(x):
     x.append(1)
 
 
-def al_helper_mutates(p):
-    _al_push(p)
+def al_helper_mutates(xs):
+    _al_push(xs)
 CASES['al_helper_mutates'] = [('L',)]
 
 
-def al_helper_mutates_copy(p):
-    _al_push(list(p))
+def al_helper_mutates_copy(xs):
+    _al_push(list(xs))
 CASES['al_helper_mutates_copy'] = [('L',)]
 
 
@@ -122,83 +122,83 @@ def _al_push_second(a, b):
     b.append(len(a))
 
 
-def al_helper_keyword_binding(p, q):
-    _al_push_second(b=p, a=q)
+def al_helper_keyword_binding(xs, q):
+    _al_push_second(b=xs, a=q)
 CASES['al_helper_keyword_binding'] = [('L', 'L')]
 
 
-def al_default_list(p, acc=[]):
-    acc.append(len(p))
+def al_default_list(xs, acc=[]):
+    acc.append(len(xs))
     return acc
 CASES['al_default_list'] = [('L',)]
 
 
-def al_default_none(p, acc=None):
+def al_default_none(xs, acc=None):
     if acc is None:
         acc = []
-    acc.append(len(p))
+    acc.append(len(xs))
     return acc
 CASES['al_default_none'] = [('L',)]
 
 
-def cl_closure_reads(p):
+def cl_closure_reads(xs):
     def g(i):
-        return p[i]
+        return xs[i]
     return g(0)
 CASES['cl_closure_reads'] = [('L',)]
 
 
-def cl_closure_writes(p):
+def cl_closure_writes(xs):
     def g():
-        p.append(1)
+        xs.append(1)
     g()
 CASES['cl_closure_writes'] = [('L',)]
 
 
-def cl_lambda_capture(p):
-    f = lambda: p
+def cl_lambda_capture(xs):
+    f = lambda: xs
     f().append(1)
 CASES['cl_lambda_capture'] = [('L',)]
 
 
-def cl_callback_result(p, f):
-    x = f(p)
+def cl_callback_result(xs, f):
+    x = f(xs)
     x.append(1)
 CASES['cl_callback_result'] = [('L', 'F')]
 
 
-def ge_generator_elems(p):
-    g = (x for x in p)
+def ge_generator_elems(xs):
+    g = (x for x in xs)
     for x in g:
         x.append(1)
 CASES['ge_generator_elems'] = [('LL',)]
 
 
-def ge_generator_copies(p):
-    g = (list(x) for x in p)
+def ge_generator_copies(xs):
+    g = (list(x) for x in xs)
     for x in g:
         x.append(1)
 CASES['ge_generator_copies'] = [('LL',)]
 
 
-def co_while_pop_copy(p):
-    q = list(p)
+def co_while_pop_copy(xs):
+    q = list(xs)
     while q:
         q.pop()
 CASES['co_while_pop_copy'] = [('L',)]
 
 
-def co_while_pop_param(p):
-    while p:
-        p.pop()
+def co_while_pop_param(xs):
+    while xs:
+        xs.pop()
 CASES['co_while_pop_param'] = [('L',)]
 
 
-def co_try_handler(p):
+def co_try_handler(xs):
     try:
-        x = p[5]
+        x = xs[5]
     except IndexError:
-        p.append(0)
+        xs.append(0)
 CASES['co_try_handler'] = [('L',)]
 
 
